@@ -1131,4 +1131,187 @@ theorem LInv.startRun {x : Acc} (h : LInv x) (w : Nat) (p : Peer) (id : Id) (res
     have : x.punp = some a := hu
     rw [hun] at this; cases this
 
+-- ------------------------------------------------------------------ corollaries used by the manager handlers
+theorem fupd_self {α : Type} (f : Nat → α) (k : Nat) (v : α) (h : f k = v) : fupd f k v = f := by
+  funext j; unfold fupd; split
+  · rename_i e; rw [e, h]
+  · rfl
+
+theorem filter_ne_self {l : List Id} {id : Id} (h : id ∉ l) : l.filter (· != id) = l := by
+  apply List.filter_eq_self.2
+  intro a ha
+  simp only [bne_iff_ne, ne_eq]
+  rintro rfl; exact h ha
+
+theorem mem_fupd_filter {f : Peer → List Id} {p q : Peer} {a id : Id} :
+    a ∈ fupd f p ((f p).filter (· != id)) q ↔ (a ∈ f q ∧ ¬ (q = p ∧ a = id)) := by
+  by_cases hq : q = p
+  · subst hq; simp [fupd_same, mem_filter_ne]
+  · rw [fupd_other _ _ _ hq]; simp [hq]
+
+theorem mem_fupd_append {f : Peer → List Id} {p q : Peer} {a id : Id} :
+    a ∈ fupd f p (f p ++ [id]) q ↔ (a ∈ f q ∨ (q = p ∧ a = id)) := by
+  by_cases hq : q = p
+  · subst hq; simp [fupd_same]
+  · rw [fupd_other _ _ _ hq]; simp [hq]
+
+/-- for a Running / Paused / CompletingSend response `TaskQueue.Remove` finds nothing -/
+theorem LInv.notPending {x : Acc} (h : LInv x) {p : Peer} {id : Id} {st : RState} {t : Option Nat}
+    (he : x.ent id = some (p, st, t)) (hst : st ≠ .queued) : id ∉ x.pend p := by
+  have := h.entry id p st t he
+  cases st with
+  | queued => exact absurd rfl hst
+  | running => exact this.1
+  | paused => exact this.1
+  | completing => exact this.1
+
+/-- cancel of a response that is not Running: CompletingSend, its pending task removed -/
+theorem LInv.cancelEntry {x : Acc} (h : LInv x) (p : Peer) (id : Id) (st : RState) (t : Option Nat)
+    (he : x.ent id = some (p, st, t)) (hst : st ≠ .running) (hun : x.punp = none) :
+    LInv { x with ent := fupd x.ent id (some (p, .completing, t)),
+                  pend := fupd x.pend p ((x.pend p).filter (· != id)) } := by
+  have hE := h.entry id p st t he
+  have := h.setEntry p id st t .completing t he (fupd x.pend p ((x.pend p).filter (· != id))) False
+    (by intro q a; rw [mem_fupd_filter]; simp) (fun f => f.elim) none (Or.inl hun) (Or.inl rfl)
+    (by
+      refine ⟨?_, ?_⟩
+      · show id ∉ fupd x.pend p _ p
+        rw [mem_fupd_filter]; simp
+      · intro i hli
+        have hli' : x.liveW i p id := hli
+        show x.kindAt i = _
+        cases st with
+        | running => exact absurd rfl hst
+        | queued =>
+          rcases hE with ⟨_, h2⟩ | ⟨_, j, h2, h3⟩ | ⟨h1, _⟩
+          · exact absurd hli' (h2 i)
+          · rw [h.liveUniq i j p id hli' h2]; exact h3
+          · rw [hun] at h1; cases h1
+        | paused => exact absurd hli' (hE.2 i)
+        | completing => exact hE.2 i hli')
+  have e : ({ x with ent := fupd x.ent id (some (p, .completing, t)),
+                     pend := fupd x.pend p ((x.pend p).filter (· != id)), punp := none } : Acc) =
+      { x with ent := fupd x.ent id (some (p, .completing, t)),
+               pend := fupd x.pend p ((x.pend p).filter (· != id)) } := by
+    cases x; simp only at hun; subst hun; rfl
+  rw [← e]; exact this
+
+theorem LInv.retireFilter {x : Acc} (h : LInv x) (p : Peer) (id : Id) (hun : x.punp = none) :
+    LInv { x with ent := fupd x.ent id none, pend := fupd x.pend p ((x.pend p).filter (· != id)) } :=
+  h.retire p id hun _ (fun q a ha => (mem_fupd_filter.1 ha).1)
+    (fun q a hne ha => mem_fupd_filter.2 ⟨ha, fun hh => hne hh.2⟩)
+
+/-- a Paused response whose update hook failed: CompletingSend -/
+theorem LInv.pausedToCompleting {x : Acc} (h : LInv x) (p : Peer) (id : Id) (t : Option Nat)
+    (he : x.ent id = some (p, .paused, t)) (hun : x.punp = none) :
+    LInv { x with ent := fupd x.ent id (some (p, .completing, t)) } := by
+  have := h.cancelEntry p id .paused t he (by simp) hun
+  rwa [fupd_self x.pend p _ (filter_ne_self (h.notPending he (by simp))).symm] at this
+
+/-- unpause: Queued, task pushed -/
+theorem LInv.unpausePush {x : Acc} (h : LInv x) (p : Peer) (id : Id) (t : Option Nat)
+    (he : x.ent id = some (p, .paused, t)) (hun : x.punp = none) :
+    LInv { x with ent := fupd x.ent id (some (p, .queued, t)), pend := fupd x.pend p (x.pend p ++ [id]) } := by
+  have hE := h.entry id p .paused t he
+  have hna : id ∉ x.act p := fun hm => by
+    obtain ⟨i, hi⟩ := (h.actLive p id).1 hm
+    exact hE.2 i hi
+  have := h.setEntry p id .paused t .queued t he (fupd x.pend p (x.pend p ++ [id])) True
+    (by
+      intro q a; rw [mem_fupd_append]
+      constructor
+      · rintro (h1 | ⟨h1, h2⟩)
+        · by_cases hh : q = p ∧ a = id
+          · exact Or.inr ⟨hh.1, hh.2, trivial⟩
+          · exact Or.inl ⟨h1, hh⟩
+        · exact Or.inr ⟨h1, h2, trivial⟩
+      · rintro (⟨h1, _⟩ | ⟨h1, h2, _⟩)
+        · exact Or.inl h1
+        · exact Or.inr ⟨h1, h2⟩)
+    (fun _ => hna) none (Or.inl hun) (Or.inl rfl)
+    (by
+      left
+      refine ⟨?_, fun i hli => hE.2 i hli⟩
+      show id ∈ fupd x.pend p _ p
+      rw [mem_fupd_append]; exact Or.inr ⟨rfl, rfl⟩)
+  have e : ({ x with ent := fupd x.ent id (some (p, .queued, t)), pend := fupd x.pend p (x.pend p ++ [id]),
+                     punp := none } : Acc) =
+      { x with ent := fupd x.ent id (some (p, .queued, t)), pend := fupd x.pend p (x.pend p ++ [id]) } := by
+    cases x; simp only at hun; subst hun; rfl
+  rw [← e]; exact this
+
+/-- unpause with an extension whose transaction parks: Queued, the task not pushed yet -/
+theorem LInv.unpausePark {x : Acc} (h : LInv x) (p : Peer) (id : Id) (t : Option Nat)
+    (he : x.ent id = some (p, .paused, t)) (hun : x.punp = none) (hpn : x.pnew = none) :
+    LInv { x with ent := fupd x.ent id (some (p, .queued, t)), punp := some id } := by
+  have hE := h.entry id p .paused t he
+  have := h.setEntry p id .paused t .queued t he x.pend False
+    (by
+      intro q a
+      constructor
+      · intro h1
+        refine Or.inl ⟨h1, ?_⟩
+        rintro ⟨rfl, rfl⟩; exact hE.1 h1
+      · rintro (⟨h1, _⟩ | ⟨_, _, f⟩)
+        · exact h1
+        · exact f.elim)
+    (fun f => f.elim) (some id) (Or.inl hun) (Or.inr ⟨rfl, rfl, fun f => f, hE.2, hpn⟩)
+    (by right; right; exact ⟨rfl, hE.1, hE.2⟩)
+  exact this
+
+/-- the parked unpause continues: the task is pushed -/
+theorem LInv.unparkPush {x : Acc} (h : LInv x) (id : Id) (hu : x.punp = some id) :
+    ∃ p t, x.ent id = some (p, .queued, t) ∧
+      LInv { x with pend := fupd x.pend p (x.pend p ++ [id]), punp := none } := by
+  obtain ⟨⟨p, t, he, hnp, hnl⟩, hpn⟩ := h.punpOK id hu
+  refine ⟨p, t, he, ?_⟩
+  have hna : id ∉ x.act p := fun hm => by
+    obtain ⟨i, hi⟩ := (h.actLive p id).1 hm
+    exact hnl i hi
+  have := h.setEntry p id .queued t .queued t he (fupd x.pend p (x.pend p ++ [id])) True
+    (by
+      intro q a; rw [mem_fupd_append]
+      constructor
+      · rintro (h1 | ⟨h1, h2⟩)
+        · by_cases hh : q = p ∧ a = id
+          · exact Or.inr ⟨hh.1, hh.2, trivial⟩
+          · exact Or.inl ⟨h1, hh⟩
+        · exact Or.inr ⟨h1, h2, trivial⟩
+      · rintro (⟨h1, _⟩ | ⟨h1, h2, _⟩)
+        · exact Or.inl h1
+        · exact Or.inr ⟨h1, h2⟩)
+    (fun _ => hna) none (Or.inr hu) (Or.inl rfl)
+    (by
+      left
+      refine ⟨?_, fun i hli => hnl i hli⟩
+      show id ∈ fupd x.pend p _ p
+      rw [mem_fupd_append]; exact Or.inr ⟨rfl, rfl⟩)
+  rwa [fupd_self x.ent id _ he] at this
+
+/-- when FinishTask of worker `w` is handled, the response with its id (if any) is the Running one that
+    owns this task -/
+theorem LInv.finishEntry {x : Acc} (h : LInv x) {w : Nat} {p q : Peer} {id : Id} {st : RState} {t : Option Nat}
+    (hw : x.wk[w]? = some (p, id, .waitFinish)) (he : x.ent id = some (q, st, t)) :
+    q = p ∧ st = .running ∧ t = some w := by
+  have hlw : x.liveW w p id := ⟨.waitFinish, hw, by simp⟩
+  have hkw : x.kindAt w = some .waitFinish := by simp [kindAt, hw]
+  have hqp : q = p := h.own w p id hlw _ he
+  subst hqp
+  have hE := h.entry id q st t he
+  refine ⟨rfl, ?_⟩
+  cases st with
+  | queued =>
+    rcases hE with ⟨_, h2⟩ | ⟨_, j, h2, h3⟩ | ⟨_, _, h2⟩
+    · exact absurd hlw (h2 w)
+    · rw [← h.liveUniq w j q id hlw h2, hkw] at h3; cases h3
+    · exact absurd hlw (h2 w)
+  | running =>
+    obtain ⟨_, i, h2, h3, _⟩ := hE
+    rw [← h.liveUniq w i q id hlw h2] at h3
+    exact ⟨rfl, h3⟩
+  | paused => exact absurd hlw (hE.2 w)
+  | completing =>
+    have := hE.2 w hlw
+    rw [hkw] at this; cases this
+
 end GS.RespLife
